@@ -2763,7 +2763,9 @@ impl<'a> Visitor<'a, '_, Error> for JSONValidator<'a> {
           }
         } else if is_ident_time_data_type(self.state.cddl, ident) {
           if let Some(n) = n.as_i64() {
-            if let chrono::LocalResult::None = Utc.timestamp_millis_opt(n * 1000) {
+            if let None | Some(chrono::LocalResult::None) =
+              n.checked_mul(1000).map(|ms| Utc.timestamp_millis_opt(ms))
+            {
               self.add_error(format!(
                 "expected time data type, invalid UNIX timestamp {}",
                 n,
